@@ -143,6 +143,9 @@ func (q *seqRun) checkView(stepIdx int, first uint64, want mChain, canon []*cano
 	}
 	q.seen[seenKey] = entries
 	q.r.Count(fmt.Sprintf("view_length_%d", min(len(want), 6)), 1)
+	if len(want) >= 17 {
+		q.r.Count("views_of_17_or_more_blocks", 1)
+	}
 	for i, e := range entries {
 		if p := compareEntry(e, want[i]); p != "" {
 			q.violate("content:"+problemClass(p), stepIdx, fmt.Sprintf("view from %d: %s", first, p), nil)
